@@ -548,3 +548,22 @@ pub fn big_accepted_graph(rng: &mut SplitMix, ne: usize) -> GraphSpec {
     mix_basis(&mut sig, rng);
     GraphSpec { d, edges, externals: vec![0, 1], signature: sig, name: String::new() }
 }
+
+/// A graph with MANY loops (6-9) that is always accepted: two or three vertices,
+/// parallel massive edges of weight D/2 + 0.3 (+ jitter).  With three vertices the
+/// loops fall into two groups that share no edge (block-diagonal L matrix).
+pub fn many_loop_graph(rng: &mut SplitMix) -> GraphSpec {
+    let d = rng.range(1, 4) as usize;
+    let three = rng.chance(2, 3);
+    let ne = rng.range(8, 10) as usize;
+    let split = if three { rng.range(3, ne as u64 - 3) as usize } else { ne };
+    let mut edges: Vec<EdgeSpec> = Vec::new();
+    for i in 0..ne {
+        let (a, b) = if i < split { (0u8, 1u8) } else { (1u8, 2u8) };
+        let (a, b) = if rng.chance(1, 2) { (a, b) } else { (b, a) };
+        let w = d as f64 / 2.0 + 0.3 + 0.01 * (rng.below(8) as f64);
+        edges.push(EdgeSpec { v: (a, b), massive: true, w: w.to_bits() });
+    }
+    let sig = cycle_basis(&edges, rng);
+    GraphSpec { d, edges, externals: vec![0, 1], signature: sig, name: String::new() }
+}
